@@ -119,6 +119,15 @@ def run(ctx):
             for i in (idx or [])[:3]:
                 ctx.notes.append({"mismatch_block_case": sh[i]})
 
+    # the witness about IsNonDominant is informational (the self-check is not part of C05: a repaired self-check must not alarm)
+    wit_ok = [k for k in (ctx.stats or {}) if k.startswith("witness_confirmed_") and "self_check" not in k]
+    wit_bad = [k for k in (ctx.stats or {}) if k.startswith("witness_NOT_confirmed_") and "self_check" not in k]
+    if (ctx.stats or {}).get("witness_NOT_confirmed_self_check_incomplete"):
+        ctx.notes.append({"self_check": "IsNonDominant() no longer skips the last entry on the witness of C05_self_check_incomplete_refuted"})
+    ctx.oblige("refutation_witnesses_replayed_on_implementation(%d)" % len(wit_ok), len(wit_ok) == 4 and not wit_bad,
+               "" if not wit_bad else "not reproduced on the real archive: %s" % wit_bad)
+    if wit_bad or len(wit_ok) != 4:
+        ctx.broken.append("witness of a *_refuted theorem no longer reproduces on the implementation: %s" % (wit_bad or "missing"))
     if selfcheck_notes:
         ctx.notes.append({"self_check_model_differs_outside_hypotheses":
                           "IsNonDominant() answered differently from the model on %d sequence case(s) that use raw forces or "
